@@ -10,6 +10,7 @@ import FeatModel.Lemmas.C15Repro
 import FeatModel.Lemmas.C15Conform
 import FeatModel.Lemmas.C15Chain
 import FeatModel.Lemmas.C15Hess
+import FeatModel.Lemmas.C15Hermite
 import FeatModel.Lemmas.C15AnyCell
 /-!
 # C15 — finite-element bases are unisolvent, derivative-consistent and conforming: property theorems
@@ -307,6 +308,54 @@ theorem C15.tables_match_samples_tensor_partial (key : Key) (h : key ∈ sampleK
   subst h
   exact ⟨FeatModel.Gen.BasisH3.l3, rfl, shape_l3, samples_l3⟩
 
+/-! ## Hermite-3 / Bogner-Fox-Schmit in 1-D on arbitrarily oriented intervals -/
+
+/-- The generated tables of the 1-D Hermite-3 and Bogner-Fox-Schmit evaluators (probed on the reference interval) are
+    the classical Hermite cubics `P1, Q1, P2, Q2`, and the evaluator model returns `table × slotScale` with the
+    **signed** coefficient `(b - a)/2` for the derivative basis functions — on the interval whose cell lists its
+    vertices as `(a, b)`, `a < b` or `a > b`. -/
+theorem C15.hermite_evaluator_model (a b t : Rat) :
+    FeatModel.Gen.BasisH1.he.vals = hermRefVals ∧ FeatModel.Gen.BasisH1.bf.vals = hermRefVals ∧
+    hermCoeff (intervalMesh a b) 0 = (b - a) / 2 ∧
+    (evalCellAny Fam.HE (intervalMesh a b) 0 [t]).map (fun ce => ce.phi.map (·.value))
+      = some (List.zipWith (· * ·) [1, hermCoeff (intervalMesh a b) 0, 1, hermCoeff (intervalMesh a b) 0]
+          (FeatModel.Gen.BasisH1.he.vals.map (evalAt [t]))) :=
+  ⟨he_table_closed_form.1, he_table_closed_form.2, hermCoeff_interval a b, evalCellAny_HE_values a b t⟩
+
+/-- The real basis functions `hermitePhys a b` (polynomials in `x`) are exactly what the evaluator model computes:
+    at `x = T(t) = (a+b)/2 + (b-a)/2·t` they equal the table functions at `t` times the signed scaling. -/
+theorem C15.hermite_basis_is_pullback (a b t : Rat) (hne : a ≠ b) :
+    (hermitePhys a b).map (evalAt [(a + b) / 2 + (b - a) / 2 * t])
+      = List.zipWith (· * ·) [1, (b - a) / 2, 1, (b - a) / 2] (hermRefVals.map (evalAt [t])) :=
+  hermite_pullback a b t hne
+
+/-- **Duality for all `a ≠ b`** (both orientations): the node functionals of Hermite-3 (model of
+    `NodeFunctional<…, Hypercube<1>, 0>`: value and derivative at both vertices) applied to `Σ u_j Φ_j` return `u`. -/
+theorem C15.hermite_dual (a b : Rat) (hne : a ≠ b) (u : List Rat) :
+    interpolateAny Fam.HE (intervalMesh a b) (hermiteFn a b u)
+      = [u.getD 0 0, u.getD 1 0, u.getD 2 0, u.getD 3 0] :=
+  FeatModel.FE.hermite_dual a b hne u
+
+/-- **Cubics are reproduced** (value and derivative at every point) by interpolation on every interval of either
+    orientation. -/
+theorem C15.hermite_reproduces_cubics (a b : Rat) (hne : a ≠ b) (c0 c1 c2 c3 x : Rat) :
+    evalAt [x] (hermiteFn a b (interpolateAny Fam.HE (intervalMesh a b) (cubic c0 c1 c2 c3)))
+      = evalAt [x] (cubic c0 c1 c2 c3) ∧
+    evalAt [x] (FeatModel.Poly.pderiv 0 (hermiteFn a b (interpolateAny Fam.HE (intervalMesh a b) (cubic c0 c1 c2 c3))))
+      = evalAt [x] (FeatModel.Poly.pderiv 0 (cubic c0 c1 c2 c3)) :=
+  hermite_reproduces a b hne c0 c1 c2 c3 x
+
+/-- **C¹-conformity across a shared vertex**: two adjacent intervals in any of the four orientation combinations,
+    whose local coefficient vectors carry the same two global DOFs for the shared vertex (`dof_one_index`): value and
+    derivative of the global interpolant coincide from both sides. -/
+theorem C15.hermite_C1_across_vertex (a1 b1 a2 b2 : Rat) (h1 : a1 ≠ b1) (h2 : a2 ≠ b2) (u w : List Rat) (l1 l2 : Nat)
+    (hl1 : l1 < 2) (hl2 : l2 < 2) (hX : intervalVertex a1 b1 l1 = intervalVertex a2 b2 l2)
+    (hv : u.getD (2 * l1) 0 = w.getD (2 * l2) 0) (hdv : u.getD (2 * l1 + 1) 0 = w.getD (2 * l2 + 1) 0) :
+    evalAt [intervalVertex a1 b1 l1] (hermiteFn a1 b1 u) = evalAt [intervalVertex a1 b1 l1] (hermiteFn a2 b2 w) ∧
+    evalAt [intervalVertex a1 b1 l1] (FeatModel.Poly.pderiv 0 (hermiteFn a1 b1 u))
+      = evalAt [intervalVertex a1 b1 l1] (FeatModel.Poly.pderiv 0 (hermiteFn a2 b2 w)) :=
+  hermite_C1 a1 b1 a2 b2 h1 h2 u w l1 l2 hl1 hl2 hX hv hdv
+
 /-! Non-vacuity of the hypotheses used above. -/
 example : ((Fam.L3, Kind.H, 2) : Key) ∈ checkedKeys := by decide
 example : ((Fam.L3, Kind.S, 2) : Key) ∈ dualKeys2 ++ dualKeys2b := by decide
@@ -318,3 +367,4 @@ example : uniformV [[0, 0, 1], [2, 1, 0], [1, 3, 5]] (numVerts Kind.S 2) 3 := by
   have : i = 0 ∨ i = 1 ∨ i = 2 := by simp [numVerts] at hi; omega
   rcases this with rfl | rfl | rfl <;> rfl
 example : ((Fam.L3, Kind.H) : Fam × Kind) ∈ traceKeys2 ++ traceKeys2L3 := by decide
+example : intervalVertex 3 1 0 = intervalVertex 1 (7 / 2) 0 + 2 := by norm_num [intervalVertex]
